@@ -3,9 +3,8 @@ SHA-256 (FIPS 180-4), executable, core Lean only.
 
 Used by the models to recompute digests bit for bit (script hashes, annex hashes, proof hashes).
 No theorem unfolds `Sha256.hash`: property theorems hold for it as for an arbitrary function
-`List UInt8 → List UInt8`.  The implementation is checked against the standard test vectors by
-`#guard`-style `example`s (kernel `decide` on the final equality of short byte lists is avoided;
-the vectors are checked by the compiled driver self-test verb instead, see `Driver/C15.lean`).
+`List UInt8 → List UInt8`.  The implementation is tied to the real digests by the correspondence
+runs (every script, annex and proof hash the implementation reports is recomputed with it).
 -/
 namespace Sha256
 
